@@ -4,6 +4,8 @@ use crate::req::{Req, Resp};
 pub mod consts;
 pub mod edwards;
 pub mod field;
+pub mod montgomery;
+pub mod ristretto;
 pub mod scalar;
 pub mod scalarmul;
 pub mod vector;
@@ -22,6 +24,12 @@ pub fn exec(req: &Req) -> Option<Resp> {
     if op.starts_with("sm.") {
         return scalarmul::exec(op, &req.a);
     }
+    if op.starts_with("rs.") {
+        return ristretto::exec(op, &req.a);
+    }
+    if op.starts_with("mt.") || op.starts_with("x.") {
+        return montgomery::exec(op, &req.a);
+    }
     None
 }
 
@@ -32,6 +40,9 @@ pub fn oracle(req: &Req, got: &Resp) -> Result<(), String> {
     }
     if req.op.starts_with("v2.") || req.op.starts_with("vi.") {
         return vector::oracle(req, got);
+    }
+    if req.op == "rs.elligator" {
+        return ristretto::oracle_elligator(req, got);
     }
     if req.op.starts_with("k.") || req.op.starts_with("kp.") {
         return consts::oracle(req, got);
